@@ -322,7 +322,7 @@ func logsloglevel2Level(level logslog.Level) Level {
 	case LevelPanic:
 		return PanicLevel
 	}
-	return FatalLevel
+	return convertLogSlogLevel(level) // unlisted values must never map to a terminating severity
 }
 
 // mLevelIsEnabledAs is a replacement table of two levels.
